@@ -266,7 +266,9 @@ func WithClientIPResolver(resolver ClientIPResolver) Option {
 // packages that use route annotation.
 func WithAnnotation(key, value any) RouteOption {
 	return routeOptionFunc(func(s sealedOption) error {
-		if !reflect.TypeOf(key).Comparable() {
+		// A nil key has no type, and a key of comparable static type may still hold a non-comparable dynamic value
+		// (e.g. an interface field holding a slice), which would panic when used as a map key.
+		if key == nil || !reflect.ValueOf(key).Comparable() {
 			return fmt.Errorf("%w: annotation key is not comparable", ErrInvalidConfig)
 		}
 		if s.route.annots == nil {
